@@ -342,9 +342,9 @@ def Step.pos : Step → Pos
   | .tok _ p => p
   | .skip _ p => p
 
-/-- a token that leaves the loop iteration is never of type END or ERROR -/
+/-- a token that leaves the loop iteration is never of type END or ERROR, and carries the position behind it -/
 def Step.tyOk : Step → Prop
-  | .tok t _ => t.ty ≠ .end_ ∧ t.ty ≠ .error
+  | .tok t p => t.ty ≠ .end_ ∧ t.ty ≠ .error ∧ t.line = p.line ∧ t.col = p.col
   | .skip _ _ => True
 
 theorem keyPeek_len (a b : TokType) (text : Str) (p : Pos) : (keyPeek a b text p).pos.rest.length ≤ p.rest.length := by
@@ -508,7 +508,7 @@ theorem tokLoop_progress (dia : Dialect) (pol : Policy) : ∀ (f : Nat) (aw : Bo
         obtain ⟨h3, h4⟩ := h3
         subst h3; subst h4
         simp only [Step.pos] at hlen
-        exact Or.inr ⟨hty.1, hty.2, by simp only [List.length_cons]; omega⟩
+        exact Or.inr ⟨hty.1, hty.2.1, by simp only [List.length_cons]; omega⟩
       | skip aw' p1 =>
         simp only [] at h2
         simp only [Step.pos] at hlen
